@@ -571,6 +571,18 @@ example : BoolU likeTree = true ∧ noIsGen likeTree = true ∧
       = some (renderU .postgresql likeTree).norm.skel := by
   decide +kernel
 
+/-- non-vacuity for IN / NOT IN: `NOT (a + 1 IN (1, 2, NULL) OR s NOT IN ('x'))` is a boolean tree
+    of the fragment; it builds (the negation switches IN and NOT IN) and the text is read back -/
+def inTree : U :=
+  .not_ (.or_ [.inOp false [.int 1, .int 2, .null] (.bin .add (.col "a" .int) (.li 1)),
+               .inOp true [.str "x"] (.col "s" .str)])
+
+example : BoolU inTree = true ∧ noIsGen inTree = true ∧
+    (match build inTree with | some e => ConcatSafe .sqlite e | none => false) = true ∧
+    (parse sqlite (renderU .sqlite inTree).print).map G.skel = some (renderU .sqlite inTree).norm.skel ∧
+    (parse mysql (renderU .mysql inTree).print).map G.skel = some (renderU .mysql inTree).norm.skel := by
+  decide +kernel
+
 /-- **sqlite_concat_counterexample** (F1): `(1 + 2) || '3'` is emitted without parentheses and
     the SQLite grammar reads the text as `1 + (2 || '3')`.  Replayed on the real code and the
     real SQLite by `known_findings.d/C01.json`. -/
